@@ -33,7 +33,7 @@ pub broadcast group group_asref_std {
     ax_asref_vec_slice, ax_asref_vec_vec, ax_asref_slice_slice, ax_asref_array_slice, ax_asref_str_bytes, ax_asref_str_str,
     ax_asref_string_str, ax_asref_string_bytes, ax_asref_ref
 }
-pub broadcast group group_glue { group_asref_std, lemma_utf8_valid, lemma_utf8_inj, ax_into_identity_obeys, ax_into_some_obeys, ax_asref_box, ax_into_identity, ax_into_some, ax_string_view_inj, ax_elem_eq_str, ax_into_map_hashmap, ax_string_key_model, vstd::std_specs::hash::group_hash_axioms, crate::p384::ax_asref_encoded_point, crate::generic_array::ax_asref_ga, ax_str_bytes_inj, ax_iter_items_vec, ax_iter_items_copied_slice }
+pub broadcast group group_glue { group_asref_std, crate::serde_json::ax_json_roundtrip, crate::serde::ax_json_str, crate::serde::ax_json_string, crate::time::ax_rfc3339_text_parses, ax_str_key_removed, ax_str_key_contains, ax_str_key_maps, lemma_utf8_valid, lemma_utf8_inj, ax_into_identity_obeys, ax_into_some_obeys, ax_asref_box, ax_into_identity, ax_into_some, ax_string_view_inj, ax_elem_eq_str, ax_into_map_hashmap, ax_string_key_model, vstd::std_specs::hash::group_hash_axioms, crate::p384::ax_asref_encoded_point, crate::generic_array::ax_asref_ga, ax_str_bytes_inj, ax_iter_items_vec, ax_iter_items_copied_slice }
 
 // ---- external std types ---------------------------------------------------------------------
 #[verifier::external_type_specification]
@@ -90,6 +90,14 @@ pub broadcast axiom fn ax_asref_box<T: ?Sized>(b: &Box<T>) ensures #[trigger] as
 // two Strings with the same contents are the same value
 pub broadcast axiom fn ax_string_view_inj(a: String, b: String)
     ensures (#[trigger] a@ == #[trigger] b@) ==> a == b;
+// HashMap<String, V> looked up / removed through &str (Borrow<str> for String): same contents = same key
+pub broadcast axiom fn ax_str_key_removed<V>(m1: Map<String, V>, m2: Map<String, V>, k: &str)
+    ensures #[trigger] vstd::std_specs::hash::borrowed_key_removed(m1, m2, k) <==>
+        ((forall|kk: String| #[trigger] m2.contains_key(kk) <==> (m1.contains_key(kk) && kk@ != k@)) && (forall|kk: String| #[trigger] m2.contains_key(kk) ==> m2[kk] == m1[kk]));
+pub broadcast axiom fn ax_str_key_contains<V>(m: Map<String, V>, k: &str)
+    ensures #[trigger] vstd::std_specs::hash::contains_borrowed_key(m, k) <==> (exists|kk: String| #[trigger] m.contains_key(kk) && kk@ == k@);
+pub broadcast axiom fn ax_str_key_maps<V>(m: Map<String, V>, k: &str, v: V)
+    ensures #[trigger] vstd::std_specs::hash::maps_borrowed_key_to_value(m, k, v) <==> (exists|kk: String| #[trigger] m.contains_key(kk) && kk@ == k@ && m[kk] == v);
 // String's Hash/Eq agree with equality of contents (vstd ships the key model only for integer/bool keys)
 pub broadcast axiom fn ax_string_key_model() ensures #[trigger] vstd::std_specs::hash::obeys_key_model::<String>();
 // <&[T; N]>::try_from(&[T]): Ok exactly when the slice has N elements
